@@ -153,6 +153,7 @@ pub fn form_text(form: &str) -> &'static str {
         "NESTED" => "/*a/*b*/c*/",
         "NESTED_SLASH" => "/*a/*/b*/c*/",
         "LINE_ANON" => " -- Anonymous placeholder\n",
+        "LINE_HYPHEN_END" => " -- sign is + or -\n",
         "INLINE_INNER" => "-- Inner type --",
         "BLOCK_STARS" => "/**c**/",
         "NESTED_STAR" => "/*a/*b*/*c*/",
@@ -332,7 +333,7 @@ pub fn drive(args: &[String]) -> i32 {
         events.extend(gen);
     }
     // 2. sweeps: every boundary of an input at once with one form, and random subsets with random forms
-    let forms: Vec<&str> = vec!["SP", "TAB", "LF", "CRLF", "LINE", "LINE_NOSPACE", "INLINE", "INLINE_TIGHT", "BLOCK", "BLOCK_TIGHT", "NESTED", "NESTED_SLASH", "BLOCK_STARS", "NESTED_STAR", "LINE_ANON", "INLINE_INNER",
+    let forms: Vec<&str> = vec!["SP", "TAB", "LF", "CRLF", "LINE", "LINE_NOSPACE", "INLINE", "INLINE_TIGHT", "BLOCK", "BLOCK_TIGHT", "NESTED", "NESTED_SLASH", "BLOCK_STARS", "NESTED_STAR", "LINE_ANON", "INLINE_INNER", "LINE_HYPHEN_END",
                                 "BLOCK_QUOTES", "LINE_KEYWORDS", "BLOCK_NONASCII", "MIXED"];
     let sweep_inputs: Vec<&Input> = ok_inputs.iter().copied().take(40).chain(ok_inputs.iter().copied().skip(nsets)).collect();
     let sweeps = util::par_chunks(&sweep_inputs, 2, util::threads(), |base, chunk| {
